@@ -33,7 +33,7 @@ def _two_pos_faces(rng):
     return {"h": [[gens.q(1), 1], [gens.q(2), 1]]}
 
 
-def gen_mech(rng, acyclic):
+def gen_mech(rng, acyclic, recerr_p=0.04):
     ns = rng.choice([1, 1, 2, 3])
     states = []
     for i in range(ns):
@@ -47,7 +47,7 @@ def gen_mech(rng, acyclic):
         for k in keys:
             r = rng.random()
             targets = list(range(i + 1, ns)) if acyclic else list(range(ns))
-            if r < 0.04:
+            if r < recerr_p:
                 t = ["recerr"]          # this branch bottoms out the stack: it alone becomes the sentinel
             elif r < 0.45 or not targets:
                 t = ec.gen_value_term(rng)
